@@ -132,11 +132,18 @@ class JsonTables:
     # -- exporters -------------------------------------------------------------------------
     def _export_keys(self, cn, func):
         keys = {}
-        for n in ast.walk(func.node):
+        from .astnorm import normalise_function
+        meths = {m: fi.node for m, fi in self.ctx.repo.classes[func.cls].methods.items()} if func.cls in self.ctx.repo.classes else None
+        fnode = normalise_function(func.node, methods=meths, module=func.module.tree)   # helpers, aliases, tables and comprehensions over them written out
+        for n in ast.walk(fnode):
             if isinstance(n, ast.Call) and isinstance(n.func, ast.Attribute) and n.func.attr == "update":
                 for kw in n.keywords:
                     if kw.arg:
                         keys[kw.arg] = encoder_shape(kw.value) + (kw.value,)
+                    elif isinstance(kw.value, ast.Dict):
+                        for k, v in zip(kw.value.keys, kw.value.values):
+                            if isinstance(k, ast.Constant) and isinstance(k.value, str):
+                                keys[k.value] = encoder_shape(v) + (v,)
             if isinstance(n, ast.Call) and isinstance(n.func, ast.Name) and n.func.id == "dict":
                 for kw in n.keywords:
                     if kw.arg:
@@ -166,7 +173,7 @@ class JsonTables:
             if f.name not in ("read_json_data", "read_simple_json"):
                 continue
             meths = {m: fi.node for m, fi in r.classes[f.cls].methods.items()} if f.cls in r.classes else None
-            fnode = normalise_function(f.node, methods=meths)   # one-line helpers (e.g. a builder of extra keyword arguments) are expanded
+            fnode = normalise_function(f.node, methods=meths, module=f.module.tree)   # one-line helpers (e.g. a builder of extra keyword arguments) are expanded
             # classes listed in a literal table of the function: a call through a variable may construct any of them
             table_classes = sorted({x.id for t in ast.walk(fnode) if isinstance(t, (ast.Tuple, ast.List)) for x in t.elts if isinstance(x, ast.Name) and x.id in self.ctor})
             assigns = {}
@@ -247,7 +254,7 @@ class JsonTables:
         # bound-method aliases and loops over literal attribute names are expanded first)
         from .astnorm import normalise_function
         ft = self.ctx.types.ftypes(rd)
-        rdn = normalise_function(rd.node)
+        rdn = normalise_function(rd.node, module=rd.module.tree)
         for n in ast.walk(rdn):
             if isinstance(n, ast.Assign) and len(n.targets) == 1 and isinstance(n.targets[0], ast.Attribute) and isinstance(n.targets[0].value, ast.Name) \
                     and n.targets[0].value.id != "self":
